@@ -69,14 +69,33 @@ def get_use_tree(
                         continue
                     merged_use_list.add(loc_name)
                 merged_rename[loc_name] = use_stmnt.rename_map.get(rem_name, rem_name)
+            # ... under their new local name only
+            for loc_name, rem_name in rename_map.items():
+                if loc_name != rem_name and rem_name not in rename_map:
+                    merged_use_list.discard(rem_name)
+                    if use_stmnt.only_list:
+                        merged_rename.pop(rem_name, None)
         elif len(use_stmnt.only_list) == 0:
             merged_use_list = only_list.copy()
             merged_rename = rename_map.copy()
-            # ... and so do the renames of a rename list met on the way down
+            # ... and so do the renames of a rename list met on the way down;
+            # a name that this rename list hides does not come along this path
+            hidden_here = set(use_stmnt.rename_map.values()) - set(
+                use_stmnt.rename_map
+            )
+            dropped = set()
             for only_name in only_list:
                 mapped_name = rename_map.get(only_name, only_name)
                 if mapped_name in use_stmnt.rename_map:
                     merged_rename[only_name] = use_stmnt.rename_map[mapped_name]
+                elif mapped_name in hidden_here:
+                    dropped.add(only_name)
+            if dropped:
+                merged_use_list = {n for n in merged_use_list if n not in dropped}
+                for only_name in dropped:
+                    merged_rename.pop(only_name, None)
+                if not merged_use_list:
+                    continue
         else:
             merged_use_list, merged_rename = intersect_only(use_stmnt)
             if len(merged_use_list) == 0:
@@ -88,6 +107,11 @@ def get_use_tree(
         # or
         # IMPORT VAR
         # IMPORT VAR2
+        # Along a path that brings in the whole module every rename stems from
+        # a rename list: the renamed entity is accessible as "loc" only
+        path_hidden = set()
+        if not merged_use_list:
+            path_hidden = {rem for loc, rem in merged_rename.items() if loc != rem}
         use_dict_mod = use_dict.get(use_stmnt.mod_name)
         if use_dict_mod is not None:
             old_len = len(use_dict_mod.only_list)
@@ -105,10 +129,26 @@ def get_use_tree(
                     use_dict[use_stmnt.mod_name] = use_dict_mod
             else:
                 # The whole module is now visible; local names introduced by
-                # earlier renames (ONLY: loc => rem) stay valid as well
+                # earlier renames (ONLY: loc => rem) stay valid as well. A name
+                # stays hidden only if no path makes it accessible as itself
+                if old_len == 0 and not merged_use_list:
+                    hidden = use_dict_mod.hidden & path_hidden
+                elif old_len == 0:
+                    hidden = use_dict_mod.hidden - {
+                        name
+                        for name in merged_use_list
+                        if merged_rename.get(name, name) == name
+                    }
+                else:
+                    hidden = path_hidden - {
+                        name
+                        for name in use_dict_mod.only_list
+                        if use_dict_mod.rename_map.get(name, name) == name
+                    }
                 use_dict[use_stmnt.mod_name] = Use(
                     use_stmnt.mod_name,
                     rename_map={**use_dict_mod.rename_map, **merged_rename},
+                    hidden=hidden,
                 )
             # Skip if we have already visited module with the same only list,
             # unless this USE brings local names (renames) that the modules
@@ -123,6 +163,7 @@ def get_use_tree(
                     mod_name=use_stmnt.mod_name,
                     only_list=set(merged_use_list),
                     rename_map=merged_rename,
+                    hidden=path_hidden,
                 )
             elif type(use_stmnt) is Import:
                 use_dict[use_stmnt.mod_name] = Import(
@@ -243,6 +284,9 @@ def find_in_scope(
             return use_scope
         # Filter children by only_list
         if len(use_info.only_list) > 0 and var_name_lower not in use_info.only_list:
+            continue
+        # USE mod, loc => rem: the entity is accessible as "loc", not as "rem"
+        if var_name_lower in use_info.hidden and var_name_lower not in use_info.rename_map:
             continue
         mod_name = use_info.rename_map.get(var_name_lower, var_name_lower)
         tmp_var = check_scope(use_scope, mod_name, filter_public=True)
